@@ -12,6 +12,7 @@ from __future__ import annotations
 import asyncio
 import datetime as _dt
 import types
+from typing import Any
 
 import looptime
 
@@ -144,7 +145,18 @@ def new_loop(start: float = 0.0) -> asyncio.AbstractEventLoop:
         if now == state['t']:
             state['n'] += 1
             if state['n'] > LIVELOCK_ITERATIONS:
+                # the nudge helps code that re-arms itself on sub-microsecond float noise; a task that spins on something that
+                # does not depend on the clock (yielding to the loop each time) survives the nudges: after LIVELOCK_NUDGES nudges
+                # in a row with nothing but the nudges moving the time, it is a livelock -- decided on loop iterations, not on wall time
+                state['row'] = state.get('row', 0) + 1 if state.get('nudged_to') == now else 1
+                if state['row'] >= LIVELOCK_NUDGES:
+                    _report_livelock(loop, first=not state.get('reported'))      # recorded once, broken as often as it takes
+                    state['reported'] = True
+                    state['row'] = LIVELOCK_NUDGES - 5                          # look again 5 nudges later if the spin goes on
+                # what every task awaits now: the next report compares with it (taken AFTER the report, i.e. one nudge = 5000 iterations earlier)
+                _WAITERS[id(loop)] = {t: getattr(t, '_fut_waiter', None) for t in asyncio.all_tasks(loop)} if state['row'] >= LIVELOCK_NUDGES - 6 or state.get('reported') else {}
                 loop._LoopTimeEventLoop__now = now + 1      # type: ignore[attr-defined]
+                state['nudged_to'] = now + 1
                 NUDGES['loop'] += 1
                 state['n'] = 0
         else:
@@ -157,7 +169,34 @@ def new_loop(start: float = 0.0) -> asyncio.AbstractEventLoop:
 
 
 LIVELOCK_ITERATIONS = 5000
+LIVELOCK_NUDGES = 10          # x LIVELOCK_ITERATIONS loop iterations without the time moving by itself
+
+
+def _report_livelock(loop: asyncio.AbstractEventLoop, first: bool = True) -> None:
+    """A task spins for ever, yielding to the loop each time (so the stall sanitizer of single callbacks does not see it). Record who, and break it."""
+    from kv.monitors import Stall
+    who = []
+    spinning = []
+    # Which task spins cannot be read off the ready queue (it holds plain callbacks such as wait_for's waiter release). A sleeping task
+    # holds one and the same future for thousands of loop iterations; a spinning one awaits a new future every few iterations:
+    # compare what every task awaits now with what it awaited LIVELOCK_ITERATIONS iterations ago (snapshot taken at the previous nudge).
+    before = _WAITERS.get(id(loop)) or {}
+    for task in asyncio.all_tasks(loop):
+        if task not in before or before[task] is getattr(task, '_fut_waiter', None) and before[task] is not None:
+            continue
+        try:
+            frames = task.get_stack(limit=6)
+            who.append(f"{task.get_name()}: " + ' <- '.join(f"{f.f_code.co_filename.rsplit('/', 2)[-1]}:{f.f_code.co_name}:{f.f_lineno}" for f in frames[-4:]))
+        except Exception:
+            who.append(repr(task)[:200])
+        spinning.append(task)
+    who = who[:6]
+    if first:
+        Stall.hits.append({'stack': '\n'.join(who), 'where': 'livelock: the event loop made %d iterations without the clock moving (tasks spin while yielding)' % (LIVELOCK_ITERATIONS * LIVELOCK_NUDGES)})
+    for task in spinning:
+        task.cancel()           # break the spin so that the run can end; the verdict has been recorded
 NUDGES = {'loop': 0}
+_WAITERS: dict[int, dict[Any, Any]] = {}      # task -> the future it awaited at the previous nudge (the object itself: ids are reused)
 
 
 def iso(t: float) -> str:
